@@ -32,11 +32,13 @@ CONSTANTS Pods,         \* pod names (ordered p1 < p2 < ... by the archetype ind
           TGP,          \* its length in clock units
           MaxNow, MaxFaults, MaxRestarts, MaxDlChanges, MaxLen,
           MaxSpont,     \* budget of spontaneous pod disturbances (a running pod leaves / succeeds / is deleted by somebody else); 99 = unbounded
-          EarlierMode,  \* "earlier" (code) | "later" (spec mutation)
+          EarlierMode,  \* "earlier" (code) | "later" (spec mutation) | "nilclears" (spec mutation: a re-add without deadline clears it)
           GateTiers,    \* TRUE (code) | FALSE: all tiers enqueued at once (spec mutation)
           MinGrace,     \* 1 (code) | 0 (spec mutation)
           DndMode,      \* "honour" (code) | "ignore" (spec mutation: evicts do-not-disrupt pods)
           ThresholdSlack, \* 0 (code) | 1: deletes one unit before deadline - grace (spec mutation)
+          SplitMode,    \* "waiting" (code): the deadline split runs over the pods Karpenter can drain | "all" (spec mutation): over
+                        \* every pod, so static / tolerating pods past their threshold are queued and deleted
           DropMode      \* "keep" (code): an active pod that is not evictable stays enqueued | "drop" (spec mutation): its entry
                         \* is released and the next drain pass re-adds it under whatever deadline is current
 
@@ -64,6 +66,7 @@ ArchAll == <<
     A(FALSE, FALSE, "-",     FALSE, TRUE,  1, "-",       FALSE),   \* 9 static (node-owned)
     A(FALSE, FALSE, "bogus", FALSE, FALSE, 1, "-",       FALSE) >> \* 10 invalid annotation value
 ArchDl == <<ArchAll[2], ArchAll[3], ArchAll[6]>>
+ArchUndrain == <<ArchAll[1], ArchAll[8], ArchAll[9]>>
 ArchQuick == <<ArchAll[1], ArchAll[2], ArchAll[3], ArchAll[5], ArchAll[6], ArchAll[8]>>
 
 Hist(e) == Len(h) < MaxLen /\ h' = Append(h, e)
@@ -110,6 +113,7 @@ NeedsForce(p, d) ==
 Tier(p) == (IF attr[p].crit THEN 2 ELSE 0) + (IF attr[p].daemon THEN 1 ELSE 0)
 EarlierOf(a, b) == IF a = NotQ THEN b
                    ELSE IF EarlierMode = "later" THEN (IF a < 0 \/ b < 0 THEN -1 ELSE Max2(a, b))
+                   ELSE IF EarlierMode = "nilclears" /\ b < 0 THEN b
                    ELSE DlMin(a, b)
 
 \* ---------------------------------------------------------------- the guards, judged at the step (ghost `bad`)
@@ -126,7 +130,7 @@ Dl(x) == DlGhost(x)
 DrainPass ==
     /\ \E p \in Pods : Waiting_(p)
     /\ LET waiting == {p \in Pods : Waiting_(p)}
-           force == {p \in waiting : NeedsForce(p, dl)}
+           force == {p \in (IF SplitMode = "all" THEN {x \in Pods : Present(x) /\ ~Terminal_(x)} ELSE waiting) : NeedsForce(p, dl)}
            graceful == waiting \ force
            firstTier == IF graceful = {} THEN -1 ELSE CHOOSE t \in 0..3 : (\E p \in graceful : Tier(p) = t) /\ \A p \in graceful : Tier(p) >= t
            group == IF GateTiers THEN {p \in graceful : Tier(p) = firstTier} ELSE graceful
@@ -153,6 +157,7 @@ QRec(p, f) ==
        THEN LET g == Max2(q[p] - now, MinGrace) IN
             \* direct delete: only with a TGP, after the threshold under the earliest queued deadline, grace >= 1, within it
             /\ Judge(<< <<"G_C10_ForceOnlyWithTgpAfterThreshold", G_C10_ForceOnlyWithTgpAfterThreshold(ap, Dl(ap), tgp, now)>>,
+                        <<"G_C10_DeleteOnlyDrainable", G_C10_DeleteOnlyDrainable(ap)>>,
                         <<"G_C10_GraceAtLeastOne", G_C10_GraceAtLeastOne(ap, g)>>,
                         <<"G_C10_GraceWithinDeadline", G_C10_GraceWithinDeadline(ap, g, Dl(ap), now)>> >>)
             /\ IF f = "err" THEN UNCHANGED <<pd, q, qU>>
@@ -196,6 +201,9 @@ UserDelete(p, long) == /\ pd[p].st = "run"
 \* the termination timestamp annotation is rewritten (earlier or later)
 Deadline(d) == /\ tgp /\ d # dl /\ d >= now /\ dlChanges < MaxDlChanges /\ dl' = d /\ dlChanges' = dlChanges + 1
                /\ Env([a |-> "Deadline", to |-> d]) /\ UNCHANGED <<attr, pd, tgp, q, qU, now, faults, restarts, spont>>
+\* the annotation disappears: the next drain pass carries no deadline (nil = plus infinity)
+DeadlineRemove == /\ tgp /\ dl >= 0 /\ dlChanges < MaxDlChanges /\ dl' = -1 /\ dlChanges' = dlChanges + 1
+                  /\ Env([a |-> "DeadlineRemove"]) /\ UNCHANGED <<attr, pd, tgp, q, qU, now, faults, restarts, spont>>
 Tick == /\ now < MaxNow /\ now' = now + 1
         /\ Env([a |-> "Tick"]) /\ UNCHANGED <<attr, pd, dl, dlChanges, tgp, q, qU, faults, restarts, spont>>
 Restart == /\ restarts < MaxRestarts /\ restarts' = restarts + 1
@@ -206,7 +214,8 @@ Next == \/ DrainPass
         \/ \E p \in Pods, f \in {"ok", "err"} : QRec(p, f)
         \/ \E p \in Pods : PodGone(p) \/ PodSucceeds(p) \/ PodBinds(p) \/ PdbFlip(p) \/ DndClear(p)
         \/ \E p \in Pods, long \in BOOLEAN : UserDelete(p, long)
-        \/ \E d \in {TGP - 1, TGP + 1} : Deadline(d)
+        \/ \E d \in {TGP - 1, TGP, TGP + 1} : Deadline(d)
+        \/ DeadlineRemove
         \/ Tick \/ Restart
 Spec == Init /\ [][Next]_vars
 FairSpec == Spec /\ WF_vars(DrainPass) /\ WF_vars(Tick) /\ \A p \in Pods : WF_vars(QRec(p, "ok")) /\ WF_vars(Terminating_(p) /\ PodGone(p))
